@@ -33,6 +33,32 @@ type compiler struct {
 	program *ast.Program
 	curStmt ast.Statement
 	inCheck bool
+	// what the roots of hanging paths (the rest of x[i].rest and f().rest)
+	// stand for while those paths are evaluated, see bind
+	bound map[*ast.Identifier]interface{}
+}
+
+// bind makes id evaluate to v until the returned function is called. id is the
+// identifier the parser put at the root of the path that hangs off an indexed
+// element or a call result. It is bound as that node, not under its name in a
+// scope: the name is the one the template itself uses for the collection or the
+// function (xs in xs[0].M(xs[1]), f in f(1).M(f(2))), which the arguments
+// further down the path must still see.
+func (c *compiler) bind(id *ast.Identifier, v interface{}) func() {
+	if c.bound == nil {
+		c.bound = map[*ast.Identifier]interface{}{}
+	}
+
+	old, had := c.bound[id]
+	c.bound[id] = v
+
+	return func() {
+		if had {
+			c.bound[id] = old
+		} else {
+			delete(c.bound, id)
+		}
+	}
 }
 
 func (c *compiler) compile() (string, error) {
@@ -532,6 +558,10 @@ func (c *compiler) evalIdentifier(node *ast.Identifier) (interface{}, error) {
 		return f.Interface(), nil
 	}
 
+	if v, ok := c.bound[node]; ok {
+		return v, nil
+	}
+
 	if c.ctx.Has(node.Value) {
 		return c.ctx.Value(node.Value), nil
 	}
@@ -1009,6 +1039,11 @@ func (c *compiler) evalCallExpression(node *ast.CallExpression) (interface{}, er
 			return nil, fmt.Errorf("could not call %s function: %w", node.Function, e)
 		}
 		if node.ChainCallee != nil {
+			if id := chainRoot(node); id != nil {
+				defer c.bind(id, res[0].Interface())()
+				return c.evalExpression(node.ChainCallee)
+			}
+
 			octx := c.ctx.(*Context)
 			defer func() {
 				c.ctx = octx
@@ -1302,6 +1337,11 @@ func (c *compiler) evalArrayLiteral(node *ast.ArrayLiteral) (interface{}, error)
 }
 
 func (c *compiler) evalIndexCallee(rv reflect.Value, node *ast.IndexExpression) (interface{}, error) {
+	if id := calleeRoot(node.Callee); id != nil {
+		defer c.bind(id, rv.Interface())()
+		return c.evalExpression(node.Callee)
+	}
+
 	octx := c.ctx.(*Context)
 	defer func() {
 		c.ctx = octx
@@ -1362,6 +1402,15 @@ func calleeRoot(node ast.Expression) *ast.Identifier {
 // call's result up. The parser fixed it when it parsed the call; the printed
 // form of the function may have grown a receiver since (x[i].a.M().b).
 func chainKey(node *ast.CallExpression) string {
+	if id := chainRoot(node); id != nil {
+		return id.Value
+	}
+
+	return node.Function.String()
+}
+
+// chainRoot is the identifier at the root of the expression chained to a call.
+func chainRoot(node *ast.CallExpression) *ast.Identifier {
 	var id *ast.Identifier
 
 	switch cc := node.ChainCallee.(type) {
@@ -1374,14 +1423,14 @@ func chainKey(node *ast.CallExpression) string {
 	}
 
 	if id == nil {
-		return node.Function.String()
+		return nil
 	}
 
 	for id.Callee != nil {
 		id = id.Callee
 	}
 
-	return id.Value
+	return id
 }
 
 func unsafeGetBytes(s string) []byte {
